@@ -315,8 +315,9 @@ def _p_values_worker(
     idx_values = np.array(idx_values)
 
     # make sure these are consecutive
+    # (a single pair is trivially consecutive)
     delta = np.unique(np.diff(idx_values))
-    if len(delta) != 1 or delta[0] != 1:
+    if len(idx_values) > 1 and (len(delta) != 1 or delta[0] != 1):
         raise RuntimeError(
             "p-value worker was passed non-consecutive pairs")
 
